@@ -400,6 +400,10 @@ func buildIntrinsics() map[string]intrinsic {
 		sum := md5.Sum(raw)
 		return ex.mkStr(hex.EncodeToString(sum[:]))
 	}
+	m["(*github.com/q191201771/lal/pkg/gb28181.PubSession).Listen"] = func(ex *Exec, fn *ssa.Function, a []Value) Value {
+		// network stub: binding the port succeeds (native replay binds a real UDP port)
+		return Tuple{ex.st.Const(64, 30000), Iface{}}
+	}
 	m["encoding/hex.Dump"] = func(ex *Exec, fn *ssa.Function, a []Value) Value { return ex.mkStr("<hexdump>") }
 	m["os.Exit"] = func(ex *Exec, fn *ssa.Function, a []Value) Value {
 		ex.require(ex.st.F, "os.Exit called")
